@@ -57,7 +57,7 @@ def twin(ctx, r, wd):
 
 def run(ctx):
     styles = ["fresh", "n1", "n2", "n3", "n5", "n14"]
-    runs = C.explore(ctx, ctx.n(110, 4000), 12, styles, p_invalid=0.55, hole=True)
+    runs = C.explore(ctx, ctx.n(500, 8000), 12, styles, p_invalid=0.55, hole=True)
     wd = tempfile.mkdtemp(prefix="vtdf")
     try:
         for r in runs:
